@@ -61,7 +61,7 @@ class Harness:
     def wrap_list(self, v, label, path):
         """Lists may come back as plain lists, lists of awaitables, or async iterators."""
         if type(v).__name__ == 'FailingList':
-            if self.sync_only or self._p('list', label) >= 0.5:
+            if self.sync_only or self.p_async == 0.0 or self._p('list', label) >= 0.5:
                 return iter(v)
             it = TrackedAsyncIterator(self, label, v.items, fail_at=len(v.items), fail_exc=v.exc)
             self.iterators.append(it)
